@@ -332,6 +332,7 @@ open Sig2
 structure St where
   s : State := Sig2.init 1
   queue : Option String := none      -- the single queue this model follows
+  ctor : Bool := false               -- a worker constructor has made its signal channel
 
 def isQueueObj (o : String) : Bool := o.startsWith "Queue#" || o.startsWith "PriorityQueue#"
 
@@ -363,7 +364,10 @@ def events (pers : Bool) (x : St) (l : RawLine) : Except String (St × List Ev) 
       (if s.chan.isSome then .error "notify on a nil channel while the model has a signal channel" else .ok (x, [.notify g (res == "true")]))
     else if obj.endsWith ":eventLoopSignal" then
       let ch := chanId obj
-      if op == "make" then .ok (x, [.makeSig g ch])
+      if op == "make" then
+        -- the constructor of a second worker (several consumers on one adapter): not this model
+        (if fn.startsWith "new" && x.ctor then .error "NA second worker"
+         else .ok ({ x with ctor := x.ctor || fn.startsWith "new" }, [.makeSig g ch]))
       else if op == "close" then (if s.chan != some ch then .error "close of a signal channel that is not the current one" else .ok (x, [.closeSig g]))
       else if op == "recv" then
         (if isD s g && s.dch g != ch then .error "event loop receives on a channel other than the one it was started on"
